@@ -58,6 +58,9 @@ SCALARS = {
     # lists whose items are unions with a member that needs a transform (the encoder's loop variable takes several types)
     "list-union-model-str": {"type": "array", "items": {"oneOf": [{"$ref": "#/components/schemas/Leaf"}, {"type": "string"}]}},
     "list-nullable-date": {"type": "array", "items": {"type": ["string", "null"], "format": "date"}},
+    # items whose python type is narrower than their JSON type (a literal): lists are invariant for the type checker
+    "list-const": {"type": "array", "items": {"const": "only"}},
+    "list-intenum": {"type": "array", "items": {"$ref": "#/components/schemas/Level"}},
 }
 DEFAULTS = {"str": "dflt", "int": 7, "num": 1.5, "bool": True, "strenum": "a", "const": "fixed", "date": "2020-01-02"}
 
